@@ -31,6 +31,7 @@ type siteKind struct {
 	direct      func(call ssa.CallInstruction) bool
 	directInstr func(in ssa.Instruction) bool // optional: sites that are not calls (stores, sends, receives)
 	memo        map[*ssa.Function]int         // 0 unknown, 1 in progress, 2 yes, 3 no
+	cut         func(*ssa.BasicBlock, int) bool // optional: edges on which the obligation does not apply
 }
 
 func newKind(name string, direct func(ssa.CallInstruction) bool) *siteKind {
@@ -127,7 +128,7 @@ func (c *Ctx) mustDo(k *siteKind, f *ssa.Function, depth int) bool {
 		r, ok := in.(*ssa.Return)
 		return ok && !isFailureReturn(r)
 	}
-	hit, _ := findPath(f, entry, via, target, nil)
+	hit, _ := findPath(f, entry, via, target, k.cut)
 	if hit == nil {
 		// every non-failing exit passes a site; make sure there is at least one site at all
 		any := false
